@@ -31,13 +31,41 @@ def fl(rows):
     return np.array([[float(v) for v in r] for r in rows], dtype=float)
 
 
-def relerr(a, b):
+def relerr(a, b, rel=False):
+    return _relerr(a, b, rel)
+
+
+def _relerr(a, b, rel=False):
+    """rel=False: max|a-b| / (1 + max(|a|,|b|))  (O(1)-scaled problems);
+       rel=True : purely relative, max|a-b| / max(|a|,|b|) in the max norm; for matrices whose columns have very
+                  different magnitudes use colrel"""
     a = np.asarray(a, dtype=float); b = np.asarray(b, dtype=float)
     if a.shape != b.shape:
         return float("inf")
     if not (np.all(np.isfinite(a)) and np.all(np.isfinite(b))):
         return float("inf")
-    return float(np.max(np.abs(a - b)) / (1.0 + max(np.max(np.abs(a)), np.max(np.abs(b))))) if a.size else 0.0
+    if not a.size:
+        return 0.0
+    top = max(np.max(np.abs(a)), np.max(np.abs(b)))
+    if rel:
+        return float(np.max(np.abs(a - b)) / top) if top > 0 else 0.0
+    return float(np.max(np.abs(a - b)) / (1.0 + top))
+
+
+def colrel(A_, B_):
+    """largest column-wise relative error"""
+    A_ = np.asarray(A_, dtype=float); B_ = np.asarray(B_, dtype=float)
+    if A_.shape != B_.shape:
+        return float("inf")
+    if not (np.all(np.isfinite(A_)) and np.all(np.isfinite(B_))):
+        return float("inf")
+    top = max(np.max(np.abs(A_)), np.max(np.abs(B_))) if A_.size else 0.0
+    worst = 0.0
+    for j in range(A_.shape[1]):
+        den = max(np.max(np.abs(A_[:, j])), np.max(np.abs(B_[:, j])), 1e-9 * top)   # (exactly zero columns: zero rows of a factor)
+        if den > 0:
+            worst = max(worst, float(np.max(np.abs(A_[:, j] - B_[:, j])) / den))
+    return worst
 
 
 class ScriptedRandn:
@@ -234,6 +262,62 @@ def gen_config(r, thorough, special=None):
     return cfg
 
 
+def scale_spec(sp, f):
+    """the same specification with all standard deviations multiplied by f"""
+    k = sp["kind"]
+    g = {"cov": f * f, "prec": 1.0 / (f * f), "sqrtcov": f, "sqrtprec": 1.0 / f}[k]
+    out = dict(sp)
+    out["value"] = sp["value"] * g
+    out["doc_prec"] = sp["doc_prec"] / (f * f)
+    return out
+
+
+def scaled_config(r, thorough):
+    """a configuration whose noise / prior standard deviations, forward matrices and data are scaled by powers of ten
+    (1e-6 … 1e6, independently: also tiny noise with a huge prior and vice versa)"""
+    for _ in range(100):
+        cfg = gen_config(r, thorough)
+        if not improper(cfg):      # (the sqrt(eps) regularisation of improper GMRF factors is an absolute perturbation)
+            break
+    pw = lambda lo, hi: 10.0 ** int(r.randint(lo, hi + 1)) * float(r.choice([1.0, 2.0, 5.0]))
+    mode = r.randint(4)
+    if mode == 0:      # everything huge (whitened operator tiny)
+        fn, fp = pw(4, 6), pw(4, 6)
+    elif mode == 1:    # everything tiny
+        fn, fp = pw(-6, -4), pw(-6, -4)
+    else:              # independent, mismatched
+        fn, fp = pw(-6, 6), pw(-6, 6)
+    fa, fd = pw(-3, 3), pw(-3, 3)
+    # a well-determined problem in both regimes: first forward matrix of full column rank
+    n = cfg["n"]
+    l0 = cfg["liks"][0]
+    if l0["m"] < n:
+        l0["m"] = n
+        l0["A"] = r.randint(-2, 3, size=(n, n)).astype(float)
+        l0["d"] = (r.randint(-6, 7, size=n) / 2.0).astype(float)
+        l0["spec"] = gen_spec(r, n)
+    l0["A"][:n, :n] += np.eye(n) * 4.0
+    for l in cfg["liks"]:
+        l["A"] = l["A"] * fa
+        l["d"] = (l["d"] + 1.0) * fd
+        l["spec"] = scale_spec(l["spec"], fn)
+    P = cfg["prior"]
+    fx = fd / fa
+    if P["type"] == "gauss":
+        P["spec"] = scale_spec(P["spec"], fp)
+        P["mean"] = P["mean"] * fx
+    elif P["type"] == "gmrf":
+        P["prec"] = P["prec"] / (fp * fp)
+        P["mean"] = P["mean"] * fx
+    else:
+        P["blocks"] = [(rows, R / fp, mu * fx) for rows, R, mu in P["blocks"]]
+    cfg["special"] = "scaled"
+    cfg["scales"] = {"noise_std": fn, "prior_std": fp, "A": fa, "data": fd}
+    if cfg["target"] == "tuple":
+        cfg["target"] = "posterior"
+    return cfg
+
+
 def tuple_config(r, thorough):
     """legacy 5-tuple form: (data, model, L_sqrtprec, P_mean, P_sqrtprec)"""
     for _ in range(100):
@@ -254,12 +338,14 @@ def tuple_config(r, thorough):
 
 
 def cfg_key(cfg):
-    return (f"{cfg['iface']}:{cfg['target']}:{cfg['backing']}:lik=" + "+".join(l["spec"]["tag"] for l in cfg["liks"])
+    return (("scaled:" if cfg.get("special") == "scaled" else "")
+            + f"{cfg['iface']}:{cfg['target']}:{cfg['backing']}:lik=" + "+".join(l["spec"]["tag"] for l in cfg["liks"])
             + f":prior={cfg['prior']['tag']}")
 
 
 def cfg_desc(cfg):
-    return {"iface": cfg["iface"], "target": cfg["target"], "backing": cfg["backing"], "n": cfg["n"],
+    return {"iface": cfg["iface"], "target": cfg["target"], "backing": cfg["backing"], "n": cfg["n"], "scales": cfg.get("scales"),
+            "history": cfg.get("history"),
             "liks": [{"m": l["m"], "A": l["A"].tolist(), "d": l["d"].tolist(), "spec": l["spec"]["tag"],
                       "value": np.asarray(l["spec"]["value"]).tolist()} for l in cfg["liks"]],
             "prior": {kk: (np.asarray(v).tolist() if isinstance(v, np.ndarray) else
@@ -358,22 +444,43 @@ class StepRunner:
         return out
 
 
-def read_affine(runner, r, n):
-    """offset and columns of the affine map e -> step(e), each step from a fresh random state"""
+def read_affine(runner, r, n, sx=1.0, tvec=None, sbig=None):
+    """offset and columns of the affine map e -> step(e), each step from a fresh random state.
+    sx: magnitude of the random current states of the read-off; tvec: length of the probe along each unit draw (the map is
+    affine, so column j = (step(t_j e_j) - step(0)) / t_j; used for badly scaled problems so that every probe moves the
+    point visibly); sbig: magnitude of the states of the state-independence / chain steps (default sx)"""
     N = runner.N
-    m0 = runner.step(np.zeros(N), r.randn(n) * 3.0)
+    tvec = np.ones(N) if tvec is None else np.asarray(tvec, dtype=float)
+    sbig = sx if sbig is None else sbig
+    m0 = runner.step(np.zeros(N), r.randn(n) * 3.0 * sx)
     B = np.zeros((n, N))
     for j in range(N):
-        e = np.zeros(N); e[j] = 1.0
-        B[:, j] = runner.step(e, r.randn(n) * 3.0) - m0
+        e = np.zeros(N); e[j] = tvec[j]
+        B[:, j] = (runner.step(e, r.randn(n) * 3.0 * sx) - m0) / tvec[j]
     # state independence / affinity on a generic draw
-    e = r.randint(-2, 3, size=N).astype(float)
-    xa = runner.step(e, r.randn(n) * 5.0)
+    e = r.randint(-2, 3, size=N).astype(float) * tvec
+    xa = runner.step(e, r.randn(n) * 5.0 * sbig)
     xb = runner.step(e, np.zeros(n))
     # three consecutive steps of the same object
-    runner.chain_draws = [r.randint(-2, 3, size=N).astype(float) for _ in range(3)]
-    runner.chain_states = runner.chain(runner.chain_draws, r.randn(n) * 3.0)
+    runner.chain_draws = [r.randint(-2, 3, size=N).astype(float) * tvec for _ in range(3)]
+    runner.chain_states = runner.chain(runner.chain_draws, r.randn(n) * 3.0 * sbig)
     return m0, B, e, xa, xb
+
+
+def probe_lengths(cfg, runner, gmrfP):
+    """state scale and probe lengths for a badly scaled configuration, from the float evaluation of the documented moments
+    and the factors the sampler holds"""
+    mdoc, Cdoc = doc_moments(cfg, gmrfP)
+    L1, L2, _ = leaf_factors(runner)
+    Mf = np.vstack([L @ l["A"] for L, l in zip(L1, cfg["liks"])] + [L2])
+    Best = Cdoc @ Mf.T
+    sm = float(np.max(np.abs(mdoc)))
+    sbig = sm + math.sqrt(float(np.max(np.diag(Cdoc))))       # the scale of the posterior
+    if sm == 0.0:
+        sm = sbig
+    col = np.max(np.abs(Best), axis=0)
+    tvec = np.where(col > 0, sm / np.where(col > 0, col, 1.0), 1.0)
+    return sm, sbig, tvec
 
 
 def leaf_factors(runner):
@@ -441,6 +548,7 @@ def run(ctx):
     n_rto = 150 if not thorough else 150 * ctx.scale * 2
     n_tuple = 30 if not thorough else 30 * ctx.scale * 2
     n_nonsym = 8 if not thorough else 60
+    n_scaled = 40 if not thorough else 40 * ctx.scale * 2
     def well_posed(gen):
         """regenerate until the documented posterior precision is comfortably invertible (the property
         presupposes a proper posterior; float comparisons need a moderate condition number)"""
@@ -456,7 +564,8 @@ def run(ctx):
         raise RuntimeError("generator could not produce a well-posed configuration")
     cfgs = [well_posed(lambda: gen_config(r, thorough)) for _ in range(n_rto)] \
         + [well_posed(lambda: tuple_config(r, thorough)) for _ in range(n_tuple)] \
-        + [well_posed(lambda: gen_config(r, thorough, special="sqrtcov-nonsym")) for _ in range(n_nonsym)]
+        + [well_posed(lambda: gen_config(r, thorough, special="sqrtcov-nonsym")) for _ in range(n_nonsym)] \
+        + [well_posed(lambda: scaled_config(r, thorough)) for _ in range(n_scaled)]
 
     records = []
     forms = {}
@@ -469,7 +578,14 @@ def run(ctx):
             with quiet():
                 target, _, _ = build_target(cuqi, cfg)
                 runner = StepRunner(cuqi, cfg, target, maxit=8 * n + 40, tol=1e-13)
-                rec["impl"] = read_affine(runner, r, n)
+                if cfg.get("special") == "scaled":
+                    rec["rel"] = True
+                    sm, sbig, tvec = probe_lengths(cfg, runner, gmrfP)
+                    rec["floor"] = sbig
+                    rec["probe"] = (sm, tvec)
+                    rec["impl"] = read_affine(runner, r, n, sx=sm, tvec=tvec, sbig=sbig)
+                else:
+                    rec["impl"] = read_affine(runner, r, n)
                 rec["leaf"] = leaf_factors(runner)
                 rec["chain"] = (runner.chain_draws, runner.chain_states)
                 rec["M_callable"] = callable(runner.s.M)
@@ -485,6 +601,8 @@ def run(ctx):
         forms[f"k:{len(cfg['liks'])}"] = forms.get(f"k:{len(cfg['liks'])}", 0) + 1
     ctx.extra_cov["rto_input_forms"] = forms
 
+    records += history_records(ctx, cuqi, r, thorough)
+
     lines, idx = [], []
     for i, rec in enumerate(records):
         if "impl_err" in rec:
@@ -497,7 +615,7 @@ def run(ctx):
 
     for rec in records:
         cfg, key, desc = rec["cfg"], rec["key"], rec["desc"]
-        kind = f"rto-{cfg['iface']}-{cfg['target']}"
+        kind = ("rto-scaled-" if cfg.get("special") == "scaled" else "rto-history-" if cfg.get("history") else "rto-") + f"{cfg['iface']}-{cfg['target']}"
         ctx.case(kind, desc)
         if "impl_err" in rec:
             # every generated configuration is a valid linear-Gaussian problem: a refusal is reported, not a wrong draw
@@ -508,6 +626,7 @@ def run(ctx):
         check_rto(ctx, rec)
 
     run_steps(ctx, cuqi, records, r, thorough)
+    run_large(ctx, cuqi, r, thorough)
     run_ugla(ctx, cuqi, r, thorough)
     run_validation(ctx, cuqi, r)
 
@@ -529,22 +648,31 @@ def check_rto(ctx, rec):
     Cdoc = None if toks[8] == "singular" else fl(pm(toks[8]))
     model = {"m": m, "B": B, "C": C, "mcode": mcode, "Ccode": Ccode, "mdoc": mdoc, "Cdoc": Cdoc}
     bad = False
+    rel = bool(rec.get("rel"))
+    E = lambda a, b: relerr(a, b, rel=rel)
+    if rel:
+        # error of every column measured on the displacement its probe produced (t_j·column_j has the magnitude of the mean)
+        sm_, tv_ = rec["probe"]
+        EB = lambda a, b: (float(np.max(np.max(np.abs(np.asarray(a) - np.asarray(b)), axis=0) * tv_) / sm_)
+                           if np.shape(a) == np.shape(b) and np.all(np.isfinite(a)) else float("inf"))
+    else:
+        EB = lambda a, b: relerr(a, b)
     if not adj_ok:
         ctx.disagree(key + ":adjoint", desc, "flag 2 is not the transpose of flag 1 / matrix branch differs", "-", "stacked operator")
         bad = True
     if not rec.get("M_callable", True):
         ctx.note(f"matrix branch of _precompute taken at {key}")
     # correspondence: the affine map
-    if relerr(m_impl, m) > TOL:
+    if E(m_impl, m) > TOL:
         ctx.disagree(key + ":offset", desc, m.tolist(), m_impl.tolist(), "offset of the affine map e -> step(e)")
         bad = True
-    if relerr(B_impl, B) > TOL:
+    if EB(B_impl, B) > TOL:
         ctx.disagree(key + ":columns", desc, "model B", f"max dev {np.max(np.abs(B_impl - B)) if B_impl.shape == B.shape else 'shape'}",
                      "linear part of the affine map e -> step(e)")
         bad = True
     # leaf certificate: the factors handed over are square roots of the precisions the code derives
     tol_leaf = TOL_IMPROPER if improper(cfg) else TOL_LEAF
-    if mcode is None or relerr(m, mcode) > tol_leaf or relerr(C, Ccode) > tol_leaf:
+    if mcode is None or E(m, mcode) > tol_leaf or E(C, Ccode) > tol_leaf:
         ctx.disagree(key + ":sqrtprec-leaf", desc, "moments from the precisions", "moments from the factors handed to the sampler",
                      "sqrtprec / sqrtprecTimesMean are not square roots of the distribution's own precision")
         bad = True
@@ -559,6 +687,8 @@ def oracle_rto(ctx, rec, key, desc, model, force=False):
     """the property on the implementation alone: documented posterior mean / covariance, state independence"""
     cfg = rec["cfg"]
     tol_doc = TOL_IMPROPER if improper(cfg) else TOL
+    rel = bool(rec.get("rel"))
+    relerr = lambda a_, b_: _relerr(a_, b_, rel=rel)   # purely relative comparisons for the scaled configurations
     n = cfg["n"]
     m_impl, B_impl, e, xa, xb = rec["impl"]
     mdoc_f, Cdoc_f = doc_moments(cfg, rec["gmrfP"])
@@ -584,6 +714,11 @@ def oracle_rto(ctx, rec, key, desc, model, force=False):
                  "B Bᵀ of the RTO draw is not the posterior covariance of the specified linear-Gaussian problem")
     # affinity + independence of the current state
     pred = m_impl + B_impl @ e
+    if rel:
+        # steps started far away (at the scale of the posterior spread): CGLS stops relative to the initial residual, so the
+        # error is measured relative to the scale of the posterior, not to a possibly much smaller mean
+        fl_ = float(rec.get("floor", 0.0))
+        relerr = lambda a_, b_: float(np.max(np.abs(np.asarray(a_) - np.asarray(b_))) / max(np.max(np.abs(a_)), np.max(np.abs(b_)), fl_, 1e-300))
     if relerr(xa, pred) > TOL or relerr(xb, pred) > TOL or relerr(xa, xb) > TOL:
         ctx.fail(key + ":state", desc, pred.tolist(), [xa.tolist(), xb.tolist()],
                  "converged step depends on the current state / is not affine in the normal draw")
@@ -595,6 +730,202 @@ def oracle_rto(ctx, rec, key, desc, model, force=False):
                 ctx.fail(key + ":chain", {**desc, "step": t + 1, "draws": [v.tolist() for v in draws]}, (m_impl + B_impl @ et).tolist(), xt.tolist(),
                          f"step {t + 1} of a chain is not the posterior draw m + B e of its own normal draw (depends on the history)")
                 break
+
+
+# ----------------------------------------------------------------------------- dimension > MIN_DIM_SPARSE (75): eigen-decomposition branches
+TOL_LARGE = 1e-8   # purely relative, against a float64 reference (the exact elimination is too slow at this size)
+
+
+def banded(r, dim, sym=True):
+    Bm = np.diag(3.0 + r.rand(dim)) + 0.8 * np.diag(r.rand(dim - 1) + 0.2, 1) + 0.3 * np.diag(r.rand(dim - 5) + 0.2, 5)
+    if sym:
+        Bm = Bm + np.triu(Bm, 1).T
+    else:
+        Bm = Bm + 0.4 * np.diag(r.rand(dim - 2) + 0.2, -2)
+    return Bm
+
+
+def large_spec(r, dim, kind):
+    """dense non-diagonal matrix parameter of dimension > 75 in one of the four forms"""
+    if kind in ("cov", "prec"):
+        val = banded(r, dim, True); D = val
+    elif kind == "sqrtprec":
+        val = banded(r, dim, False); D = val.T @ val
+    else:
+        val = banded(r, dim, True); D = val.T @ val     # symmetric: S Sᵀ = Sᵀ S
+    return {"kind": kind, "shape": "full", "value": val, "tag": f"{kind}-dense{dim}",
+            "doc_prec": np.linalg.inv(D) if kind in ("cov", "sqrtcov") else D}
+
+
+def run_large(ctx, cuqi, r, thorough):
+    kinds = ["prec", "cov", "sqrtcov", "sqrtprec"]
+    plan = []
+    for i, kd in enumerate(kinds):                  # prior of dimension 76 / 80, m ≈ 30
+        plan.append(("prior", kd, [76, 80][i % 2], int(r.randint(26, 35))))
+    for kd in (["prec", "cov"] if not thorough else kinds):       # noise of dimension 76, small n
+        plan.append(("noise", kd, int(r.randint(8, 14)), 76))
+    if thorough:
+        plan = plan * 3
+    for i, (where, kd, n, m) in enumerate(plan):
+        iface = ["exp", "legacy"][(i + ctx.seed) % 2]
+        A = r.randint(-2, 3, size=(m, n)).astype(float)
+        d = (r.randint(-6, 7, size=m) / 2.0).astype(float)
+        mean = r.randint(-3, 4, size=n).astype(float)
+        lsp = large_spec(r, m, kd) if where == "noise" else gen_spec(r, m, force=("cov", "scalar"))
+        psp = large_spec(r, n, kd) if where == "prior" else gen_spec(r, n, force=("prec", "vector"))
+        cfg = {"n": n, "iface": iface, "backing": "matrix", "target": "posterior", "special": "large",
+               "liks": [{"m": m, "A": A, "d": d, "spec": lsp}],
+               "prior": {"type": "gauss", "spec": psp, "mean": mean, "tag": psp["tag"]}}
+        key = "large:" + cfg_key(cfg)
+        desc = {"iface": iface, "n": n, "m": m, "where": where, "kind": kd, "seed_stream": "RandomState(seed+606), large block", "index": i}
+        ctx.case(f"rto-large-{iface}", desc)
+        try:
+            with quiet():
+                target, _, _ = build_target(cuqi, cfg)
+                runner = StepRunner(cuqi, cfg, target, maxit=8 * n + 40, tol=1e-13)
+                m_impl, B_impl, e, xa, xb = read_affine(runner, r, n)
+                chain = (runner.chain_draws, runner.chain_states)
+                L1, L2, _ = leaf_factors(runner)
+        except Exception as ex:
+            ctx.disagree(key + ":refusal", desc, "accepted", repr(ex)[:160], "implementation refuses a valid linear-Gaussian target")
+            ctx.fail(key + ":refusal", desc, "one exact posterior draw", repr(ex)[:160], "sampler cannot be built / stepped on a valid target")
+            continue
+        mdoc, Cdoc = doc_moments(cfg)
+        if relerr(m_impl, mdoc, rel=True) > TOL_LARGE:
+            ctx.fail(key + ":mean", desc, mdoc[:6].tolist(), m_impl[:6].tolist(),
+                     "offset of the RTO draw is not the posterior mean (dense parameter of dimension > 75)")
+        if relerr(B_impl @ B_impl.T, Cdoc, rel=True) > TOL_LARGE:
+            ctx.fail(key + ":cov", desc, np.diag(Cdoc)[:6].tolist(), np.diag(B_impl @ B_impl.T)[:6].tolist(),
+                     "B Bᵀ of the RTO draw is not the posterior covariance (dense parameter of dimension > 75)")
+        pred = m_impl + B_impl @ e
+        if relerr(xa, pred, rel=True) > TOL_LARGE or relerr(xb, pred, rel=True) > TOL_LARGE:
+            ctx.fail(key + ":state", desc, pred[:6].tolist(), [xa[:6].tolist(), xb[:6].tolist()], "converged step depends on the current state")
+        for t, (et, xt) in enumerate(zip(*chain)):
+            if relerr(xt, m_impl + B_impl @ et, rel=True) > TOL_LARGE:
+                ctx.fail(key + ":chain", {**desc, "step": t + 1}, "m + B e", "differs", "chained step is not the posterior draw of its own normal draw")
+                break
+        # the factor handed over is a square root of the specified precision (float check; reported through the moments above)
+        Lf = L1[0] if where == "noise" else L2
+        Pd = (lsp if where == "noise" else psp)["doc_prec"]
+        if relerr(Lf.T @ Lf, Pd, rel=True) > 1e-9:
+            ctx.note(f"{key}: sqrtprecᵀ sqrtprec differs from the specified precision by {relerr(Lf.T @ Lf, Pd, rel=True):.2e}")
+
+
+# ----------------------------------------------------------------------------- re-assignment histories
+def logd_oracle(ctx, key, desc, post, m_impl, B_impl, r):
+    """the density the posterior object evaluates NOW must be the Gaussian with the read-off moments:
+    -2 (logd(m+v) - logd(m)) = vᵀ C⁻¹ v and logd(m+v) = logd(m-v)"""
+    C = B_impl @ B_impl.T
+    try:
+        Ci = np.linalg.inv(C)
+        with quiet():
+            f = lambda x_: float(np.asarray(post.logd(x_)).ravel()[0])
+            f0 = f(m_impl)
+            sd = np.sqrt(np.diag(C))
+            for _ in range(4):
+                v = r.randn(len(m_impl)) * sd * 2.0
+                qf = -2.0 * (f(m_impl + v) - f0); qb = -2.0 * (f(m_impl - v) - f0)
+                want = float(v @ Ci @ v)
+                if abs(qf - want) > 1e-6 * (1 + abs(want)) or abs(qf - qb) > 1e-6 * (1 + abs(want)):
+                    ctx.fail(key + ":logd", desc, want, [qf, qb],
+                             "the posterior density evaluated by the target object is not the Gaussian with the mean/covariance of the RTO draw "
+                             "(sampler and logd use different parameters)")
+                    return
+    except Exception as ex:
+        ctx.note(f"logd oracle not applicable at {key}: {repr(ex)[:100]}")
+
+
+def history_records(ctx, cuqi, r, thorough):
+    """Posterior(likelihood, prior) built directly; a sampler is built and run; then parameters of the SAME prior / likelihood
+    objects are re-assigned and a new sampler is built on the same posterior: it must sample the posterior of the CURRENT
+    parameters.  Returns records for the common model/oracle pipeline (the second round)."""
+    from cuqi.distribution import Gaussian, GMRF, Posterior
+    from cuqi.model import LinearModel
+    out = []
+    nh = 14 if not thorough else 14 * ctx.scale
+    for c in range(nh):
+        n = int(r.randint(2, 6)); m = int(r.randint(n, n + 3))
+        iface = ["exp", "legacy"][c % 2]
+        A = r.randint(-2, 3, size=(m, n)).astype(float) + np.vstack([np.eye(n) * 3.0, np.zeros((m - n, n))])
+        d = (r.randint(-6, 7, size=m) / 2.0).astype(float)
+        lk = ["cov", "prec", "sqrtcov", "sqrtprec"][r.randint(4)]
+        lsp0 = gen_spec(r, m, force=(lk, ["scalar", "vector", "diag", "full"][r.randint(4)]))
+        ptype = "gmrf" if c % 3 == 0 else "gauss"
+        what = ["prior", "likelihood", "both"][r.randint(3)]
+        form = "tuple" if (iface == "legacy" and c % 4 == 1) else "posterior"
+        if form == "tuple":
+            ptype = "gauss"; lk = "sqrtprec"
+            lsp0 = gen_spec(r, m, force=("sqrtprec", ["vector", "diag", "full"][r.randint(3)]))
+        mean0 = r.randint(-3, 4, size=n).astype(float)
+        if ptype == "gmrf":
+            pr0 = {"type": "gmrf", "order": int(r.choice([1, 2])), "bc": "zero", "prec": float(r.choice([0.25, 1.0, 4.0])), "mean": mean0}
+            pr0["tag"] = f"gmrf-order{pr0['order']}-zero"
+        else:
+            pk = "sqrtprec" if form == "tuple" else ["cov", "prec", "sqrtcov", "sqrtprec"][r.randint(4)]
+            psp0 = gen_spec(r, n, force=(pk, ["vector", "diag", "full"][r.randint(3)]))
+            pr0 = {"type": "gauss", "spec": psp0, "mean": mean0, "tag": psp0["tag"]}
+        cfg0 = {"n": n, "iface": iface, "backing": "matrix", "target": form, "tuple_model": "LinearModel",
+                "liks": [{"m": m, "A": A, "d": d, "spec": lsp0}], "prior": pr0}
+        # the re-assigned parameters
+        cfg1 = {**cfg0, "liks": [dict(cfg0["liks"][0])], "prior": dict(pr0)}
+        if what in ("likelihood", "both"):
+            cfg1["liks"][0]["spec"] = gen_spec(r, m, force=(lk, ["scalar", "vector", "diag", "full"][r.randint(4)]))
+        if what in ("prior", "both"):
+            cfg1["prior"]["mean"] = r.randint(-3, 4, size=n).astype(float)
+            if ptype == "gmrf":
+                cfg1["prior"]["prec"] = float(r.choice([0.5, 2.0, 8.0, 16.0]))
+            else:
+                sp_new = gen_spec(r, n, force=(pr0["spec"]["kind"], ["vector", "diag", "full"][r.randint(3)]))
+                cfg1["prior"]["spec"] = sp_new; cfg1["prior"]["tag"] = sp_new["tag"]
+        cfg1["history"] = {"reassigned": what, "round1": {"lik": np.asarray(lsp0["value"]).tolist(),
+                                                          "prior": (pr0["prec"] if ptype == "gmrf" else np.asarray(pr0["spec"]["value"]).tolist()),
+                                                          "prior_mean": mean0.tolist()}}
+        key = f"history:{what}:" + cfg_key(cfg1)
+        rec = {"cfg": cfg1, "key": key, "desc": cfg_desc(cfg1),
+               "gmrfP": gmrf_precision(cuqi, cfg1["prior"], n) if ptype == "gmrf" else None}
+        try:
+            with quiet():
+                if form == "tuple":
+                    Amod = LinearModel(A.copy())
+                    t1 = (d.copy(), Amod, lsp0["value"], mean0, pr0["spec"]["value"])
+                    r1 = StepRunner(cuqi, cfg0, t1, maxit=8 * n + 40, tol=1e-13)
+                    r1.chain([r.randn(r1.N) for _ in range(2)], np.zeros(n))
+                    target = (d.copy(), Amod, cfg1["liks"][0]["spec"]["value"], cfg1["prior"]["mean"], cfg1["prior"]["spec"]["value"])
+                    post = None
+                else:
+                    if ptype == "gmrf":
+                        x = GMRF(mean0.copy(), pr0["prec"], bc_type="zero", order=pr0["order"], name="x")
+                    else:
+                        x = Gaussian(mean=mean0.copy(), name="x", **spec_kwargs(pr0["spec"]))
+                    y = Gaussian(mean=LinearModel(A.copy())(x), name="y0", **spec_kwargs(lsp0))
+                    post = Posterior(y.to_likelihood(d), x)
+                    r1 = StepRunner(cuqi, cfg0, post, maxit=8 * n + 40, tol=1e-13)
+                    first = r1.chain([np.zeros(r1.N), r.randn(r1.N)], np.zeros(n))[0]
+                    m_first = doc_moments(cfg0, gmrf_precision(cuqi, pr0, n) if ptype == "gmrf" else None)[0]
+                    if relerr(first, m_first) > TOL:
+                        ctx.fail(key + ":round1", rec["desc"], m_first.tolist(), first.tolist(), "first sampler (before any re-assignment) is off")
+                    # ---- re-assign on the objects the posterior holds
+                    if what in ("likelihood", "both"):
+                        setattr(post.likelihood.distribution, lk, cfg1["liks"][0]["spec"]["value"])
+                    if what in ("prior", "both"):
+                        post.prior.mean = cfg1["prior"]["mean"].copy()
+                        if ptype == "gmrf":
+                            post.prior.prec = cfg1["prior"]["prec"]
+                        else:
+                            setattr(post.prior, pr0["spec"]["kind"], cfg1["prior"]["spec"]["value"])
+                    target = post
+                runner = StepRunner(cuqi, cfg1, target, maxit=8 * n + 40, tol=1e-13)
+                rec["impl"] = read_affine(runner, r, n)
+                rec["leaf"] = leaf_factors(runner)
+                rec["chain"] = (runner.chain_draws, runner.chain_states)
+                rec["M_callable"] = callable(runner.s.M)
+            if post is not None:
+                logd_oracle(ctx, key, rec["desc"], post, rec["impl"][0], rec["impl"][1], r)
+        except Exception as ex:
+            rec["impl_err"] = f"{type(ex).__name__}: {str(ex)[:160]}"
+        out.append(rec)
+    return out
+
 
 
 # ----------------------------------------------------------------------------- exact CGLS runs
